@@ -20,6 +20,8 @@ structure URig where
   sock : List (Nat × Bytes) := []
   pending : List UdpJob := []
   wburst : List UdpJob := []
+  plan : List TxAns := []      -- what the kernel will answer to the next sendmmsg calls
+  retired : Bool := false      -- batched TX retired (ENOSYS)
 
 structure State where
   udp : Option URig := none
@@ -46,7 +48,11 @@ def fmtSent (l : List Datagram) : String :=
   if l.isEmpty then "sent=-" else
   "sent=" ++ "|".intercalate ((sortByClient l).map fun d => s!"c{d.dest}:{bytesHex d.body}")
 
-def flushAll (js : List UdpJob) : List Datagram := sendGroup js
+/-- `flushTX` of one burst under the scripted kernel; an empty burst makes no call -/
+def flushAll (r : URig) (js : List UdpJob) : URig × List Datagram :=
+  if js.isEmpty then (r, []) else
+  let (o, plan, ret) := sendGroupPlan r.retired r.plan js
+  ({ r with plan := plan, retired := r.retired || ret }, o)
 
 def fateName : InlineFate → String
   | .staged => "inline" | .released => "inline" | .handoff => "handoff"
@@ -75,7 +81,7 @@ def readBatch (r : URig) (m : Nat) : URig × String × List Datagram :=
       | (j, .handoff) => (pend ++ [{ j with state := .queued }], rb, fates ++ [s!"c{c}:{pkt.length}:handoff"])
     else (pend ++ [{ j with state := .queued }], rb, fates ++ [s!"c{c}:{pkt.length}:queued"])
   let (pend, rb, fates) := pkts.foldl step (r.pending, [], [])
-  let sent := flushAll rb
+  let (r, sent) := flushAll r rb
   ({ r with sock := r.sock.drop n, pending := pend },
    s!"n={n} {",".intercalate fates} shed=0 {fmtSent sent}", sent)
 
@@ -98,13 +104,15 @@ def serveNext (r : URig) (overflow : Bool) : URig × String × List Datagram :=
       let (j', o, staged) := j.serve sz program true
       let wb := if staged then r.wburst ++ [j'] else r.wburst
       if wb.length = sz.udpTxMax then
-        let sent := o ++ flushAll wb
+        let (r, fl) := flushAll r wb
+        let sent := o ++ fl
         ({ r with pending := rest, wburst := [] }, s!"staged={boolStr staged} burst=0 flushed=t {fmtSent sent}", sent)
       else
         ({ r with pending := rest, wburst := wb }, s!"staged={boolStr staged} burst={wb.length} flushed=f {fmtSent o}", o)
 
 def flushW (r : URig) : URig × List Datagram :=
-  ({ r with wburst := [] }, flushAll r.wburst)
+  let (r', o) := flushAll r r.wburst
+  ({ r' with wburst := [] }, o)
 
 def serveAll : Nat → URig → List Datagram → URig × List Datagram
   | 0, r, acc => (r, acc)
@@ -195,6 +203,10 @@ def step (st : State) (w : List String) : State × String :=
       | ["read", "portable"] => let (r, s) := readPortable r; ({ st with udp := some r }, s)
       | ["serve"] => let (r, s, _) := serveNext r false; ({ st with udp := some r }, s)
       | ["serve", "overflow"] => let (r, s, _) := serveNext r true; ({ st with udp := some r }, s)
+      | ["txplan", pl] =>
+        let plan := (pl.splitOn ",").map fun x =>
+          if x == "x" then TxAns.refused else if x == "r" then TxAns.retired else TxAns.sent ((x.toNat?).getD 1)
+        ({ st with udp := some { r with plan := plan } }, "ok")
       | ["flush"] => let (r, o) := flushW r; ({ st with udp := some r }, fmtSent o)
       | ["drain"] =>
         let (r, o) := drainLoop 256 r []
